@@ -203,7 +203,11 @@ def run_reload(case, res):
     pm = RiscvPerformanceMetrics()
     ims = InstructionMemoryCacheSystem(InstructionMemory(), cfg["ib"], cfg["bb"], cfg["assoc"], pm, cfg["pen"], cfg["policy"])
     o1 = [build_instr(d, 4 * i) for i, d in enumerate(p1)]
-    ims.write_instructions(o1)
+    # (the program is handed over as a list, a tuple or a one-shot iterator: a sequence of instructions is a sequence)
+    shape = (len(p1) + len(p2)) % 3
+    ims.write_instructions(o1 if shape == 0 else (tuple(o1) if shape == 1 else iter(o1)))
+    if shape:
+        res.count("programs_written_from_tuple_or_iterator")
     for a in case["fetch1"]:
         if a < 4 * len(o1):
             r = ims.read_instruction(a)
@@ -217,7 +221,7 @@ def run_reload(case, res):
         res.violation("C11", "reset-keeps-program", "after reset() (previous program fetched %d times) the instruction memory still holds instructions" % len(case["fetch1"]), case)
         return
     o2 = [build_instr(d, 4 * i) for i, d in enumerate(p2)]
-    ims.write_instructions(o2)
+    ims.write_instructions(o2 if shape == 0 else (iter(o2) if shape == 1 else tuple(o2)))
     res.count("reload_memsys")
     st = ims.get_cache_stats()
     if (int(st["hits"]), int(st["accesses"])) != (0, 0) or st["last_hit"]:
@@ -298,11 +302,22 @@ def run_sparse_case(case, res):
         plain = InstructionMemory()
         ims = InstructionMemoryCacheSystem(InstructionMemory(), cfg["ib"], cfg["bb"], cfg["assoc"], RiscvPerformanceMetrics(), cfg["pen"], cfg["policy"])
     objs = {}
+    prefilled = len(case["image"]) % 3 == 0
     for a, d in case["image"]:
         o = build_instr(d, a)
         objs[a] = o
         plain.write_instruction(a, o)
-        ims.write_instruction(a, o)
+        if not prefilled:
+            ims.write_instruction(a, o)
+    if prefilled:
+        # the lower instruction memory is handed over ALREADY FILLED (its public `instructions` field), and one more
+        # instruction is written through the lower object the caller still holds: the cache is a view of that memory
+        items = list(objs.items())
+        lower = InstructionMemory(instructions=dict(items[:-1]), **({"address_range": range(*case["range"])} if case.get("range") else {}))
+        ims = InstructionMemoryCacheSystem(lower, cfg["ib"], cfg["bb"], cfg["assoc"], RiscvPerformanceMetrics(), cfg["pen"], cfg["policy"])
+        if items:
+            lower.write_instruction(*items[-1])
+        res.count("lower_instruction_memory_filled_by_the_caller")
     rc = RefCache(cfg["ib"], cfg["bb"], cfg["assoc"], cfg["policy"], False)
     for a in case["fetches"]:
         if isinstance(a, list):
